@@ -120,7 +120,7 @@ def oStep (o : OSt) (op : List String) (exts : List (List String)) : OSt × Opti
     | some d =>
       let id := o.nextId
       let size := (extVal exts "size" (toString id)).bind String.toNat?
-      let s' := enq o.cfg s ⟨id, d, size⟩ script
+      let s' := enq o.cfg s ⟨id, d, size, 0⟩ script
       ({ o with st := some s', nextId := id + 1 }, some (obsOf o s' (s'.disps.drop s.disps.length) toks))
   | "adv" :: d :: _, some s =>
     match d.toNat? with
